@@ -505,7 +505,7 @@ RAW_POOL = [
     S("PData"), S("PFuzzy"), S("PNum"), S("USrc"), S("URead"), S("UFz"), S("UPrint"), S("Missing"), S("café"),
     {"t": "path", "kind": "abs_existing"}, {"t": "path", "kind": "abs_missing"}, {"t": "path", "kind": "rel_existing"},
     {"t": "path", "kind": "rel_missing"},
-    L(), L(I(1), I(2)), L(Fl(0.5), S("2")), L(S("a"), S("b")), L(S("true"), I(0)), L(L(I(1)), L(I(2), Fl(3.5))), L(L()),
+    L(), L(I(1), I(2)), L(Fl(2.5), Fl(0.5)), L(I(3), I(1), I(2)), L(S("b"), S("a")), L(L(I(2), I(1)), L(I(0))), L(Fl(0.5), S("2")), L(S("a"), S("b")), L(S("true"), I(0)), L(L(I(1)), L(I(2), Fl(3.5))), L(L()),
     L(S("PData"), S("UFz")), L(S("PData"), S("Missing")), L(L(S("PData")), L(S("PFuzzy"), S("URead"))),
     {"t": "listarg", "items": [I(1), S("2")]}, {"t": "listarg", "items": [{"t": "listarg", "items": [I(1)]}, {"t": "listarg", "items": []}]},
     {"t": "argitems", "items": [I(1), Fl(2.5)]}, {"t": "argitems", "items": [S("PData")]},
